@@ -230,6 +230,7 @@ scpi_bool_t SCPI_Parse(scpi_t * context, char * data, int len) {
         } else if (state->programHeader.len > 0) {
 
             composeCompoundCommand(&cmd_prev, &state->programHeader);
+            cmd_prev = state->programHeader;
 
             if (findCommandHeader(context, state->programHeader.ptr, state->programHeader.len)) {
 
@@ -241,7 +242,6 @@ scpi_bool_t SCPI_Parse(scpi_t * context, char * data, int len) {
                 context->param_list.cmd_raw.length = state->programHeader.len;
 
                 result &= processCommand(context);
-                cmd_prev = state->programHeader;
             } else {
                 /* place undefined header with error */
                 /* calculate length of errorenous header and trim \r\n */
